@@ -1,4 +1,5 @@
 import SparseV.Props.C06
+import SparseV.Props.Program
 #print axioms SparseV.C06.build_canonical
 #print axioms SparseV.C06.sorted_rewrite_canonical
 #print axioms SparseV.C06.reshape_canonical
@@ -7,3 +8,7 @@ import SparseV.Props.C06
 #print axioms SparseV.C06.nofill_prune
 #print axioms SparseV.C06.sortedLin_nodup
 #print axioms SparseV.C06.promise_sites_covered
+#print axioms SparseV.Program.program_canonical
+#print axioms SparseV.Program.program_refines
+#print axioms SparseV.Program.program_errors
+#print axioms SparseV.Program.program_canonical_pruned
